@@ -130,7 +130,7 @@ mut('C09', 'direct-container-write', 'bench.py', "        cell = Node(self.c, st
 mut('C09', 'wrong-dict-on-remove', 'circuit.py', "            if self.kind == '__fork__':\n                del self.circuit.forks[self.name]\n            else:\n                del self.circuit.cells[self.name]", "            if self.kind != '__fork__':\n                del self.circuit.forks[self.name]\n            else:\n                del self.circuit.cells[self.name]", 'C09.containers')
 mut('C09', 'free-index-wrong-list', 'circuit.py', 'if not isinstance(reader, tuple): reader = (reader, reader.ins.free_index())', 'if not isinstance(reader, tuple): reader = (reader, reader.outs.free_index())', 'C09.ctor')
 mut('C09', 'stats-wrong-container', 'circuit.py', "stats['__cell__'] = len(self.cells)", "stats['__cell__'] = len(self.nodes)", 'C09.stats')
-mut('C09', 'index-before-append', 'circuit.py', '        circuit.nodes.append(self)\n        self.circuit = circuit', '        self.circuit = circuit', ['C09.containers', 'C09.ctor'], edits=[dict(old='        circuit.nodes.append(self)\n        self.circuit = circuit', new='        self.circuit = circuit'), dict(old='        self.index = len(circuit.nodes) - 1\n', new='        self.index = len(circuit.nodes)\n        circuit.nodes.append(self)\n')])
+neutral('C09', 'n-index-before-append', 'circuit.py', '        circuit.nodes.append(self)\n        self.circuit = circuit', '        self.circuit = circuit', edits=[dict(old='        circuit.nodes.append(self)\n        self.circuit = circuit', new='        self.circuit = circuit'), dict(old='        self.index = len(circuit.nodes) - 1\n', new='        self.index = len(circuit.nodes)\n        circuit.nodes.append(self)\n')])  # equivalent: len() before the append is len() - 1 after it
 neutral('C09', 'n-blank-lines', 'circuit.py', '        self.driver = None\n        self.reader = None\n        self.circuit = None\n', '        self.driver = None\n\n        self.reader = None\n        # done\n        self.circuit = None\n')
 
 # ------------------------------------------------------------------ C10
@@ -404,16 +404,20 @@ _on_refactoring('C02', 'hb5+wrong-invert', 'HB-5', 'logic_sim.py', 'if op == sim
 _on_refactoring('C02', 'hb5+wrong-pair', 'HB-5', 'logic_sim.py', 'elif op == sim.OA22 or op == sim.OAI22:', 'elif op == sim.OA22 or op == sim.OAI211:', 'C02.comp')
 _on_refactoring('C02', 'hb5+view-alias', 'HB-5', 'logic_sim.py', 'logic.bp4v_and(scratch, self.c[i1], self.c[i2])', 'logic.bp4v_and(scratch, self.c[i1], scratch)', ['C02.alias', 'C02.bool'])
 
+mut('C10', 'substitute-prunes-early', 'circuit.py', "                if l.driver in node_map:\n                    unused.append(node_map[l.driver])\n                continue", "                if l.driver in node_map:\n                    self.remove_dangling_nodes(node_map[l.driver])\n                continue", 'C10.function')   # F16
+
 
 # rules that are decided by evaluation when the code is inside the evaluator subset report under the evaluated rule's id
 _EVALUATED_ALIAS = {
     'C11': ({'C11.range', 'C11.decl', 'C11.ports', 'C11.pins', 'C11.const', 'C11.names'}, 'C11.netlist'),
     'C18': ({'C18.chain', 'C18.rank', 'C18.order'}, 'C18.maps'),
     'C14': ({'C14.accumulate', 'C14.triple'}, 'C14.records'),
+    'C09': ({'C09.ctor', 'C09.remove', 'C09.containers', 'C09.backref', 'C10.copy', 'C10.pickle', 'C10.elim', 'C10.pins', 'C10.keys', 'C10.names', 'C10.sub-shape'}, 'C09.history'),
+    'C10': ({'C10.copy', 'C10.pickle', 'C10.elim', 'C10.pins', 'C10.keys', 'C10.names', 'C10.sub-shape', 'C10.resolve', 'C09.remove', 'C09.ctor'}, 'C10.function'),
 }
 for _m in M:
     _al = _EVALUATED_ALIAS.get(_m.get('prop'))
     if _al and _m.get('rule'):
         _r = _m['rule'] if isinstance(_m['rule'], (list, tuple)) else [_m['rule']]
         if set(_r) & _al[0] and _al[1] not in _r:
-            _m['rule'] = list(_r) + [_al[1]]
+            _m['rule'] = list(_r) + [_al[1]] + (['C09.history', 'C10.function'] if _m.get('prop') in ('C09', 'C10') else [])
